@@ -39,13 +39,22 @@ type c20Script struct {
 	Headers [][2]string `json:"headers"`
 	Chunks  []int       `json:"chunks"`
 	Early   bool        `json:"early_hints,omitempty"` // 103 before the final status
+	// flush scripts: the response head is flushed before any body byte and the handler waits until the client has it
+	HeadFlush bool `json:"flush_head_before_body,omitempty"`
 }
+
+// watchdog of the head-flush handshake (generous; shortened after it has fired once so that a broken tree is reported fast)
+var c20HeadTimeout atomic.Int64
+
+func init() { c20HeadTimeout.Store(int64(20 * time.Second)) }
 
 type c20Inner struct {
 	mu       sync.Mutex
 	invoked  map[string]int
 	script   c20Script
 	gotFirst chan struct{}
+	gotHead  chan struct{}
+	headBad  atomic.Int64
 	hold     chan struct{}
 	entered  chan struct{}
 	flushBad atomic.Int64
@@ -118,6 +127,20 @@ func (in *c20Inner) ServeHTTP(w http.ResponseWriter, req *http.Request) {
 	if s.Status != 0 {
 		w.WriteHeader(s.Status)
 	}
+	if s.Kind == "flush" && s.HeadFlush {
+		// "headers now, data later": Flush commits and sends the status line and headers
+		if f, ok := w.(http.Flusher); ok {
+			f.Flush()
+			select {
+			case <-in.gotHead:
+			case <-time.After(time.Duration(c20HeadTimeout.Load())):
+				in.headBad.Add(1)
+				c20HeadTimeout.Store(int64(time.Second))
+			}
+		} else {
+			in.headBad.Add(1)
+		}
+	}
 	for ci, n := range s.Chunks {
 		tag := []byte(sfmt("<c%d>", ci))
 		_, _ = w.Write(bytes.Repeat(tag, n/len(tag)+1)[:n])
@@ -140,6 +163,7 @@ type c20MW struct {
 	Kind      string `json:"kind"`
 	Intervene bool   `json:"intervene,omitempty"`
 	Sticky    bool   `json:"sticky,omitempty"`
+	Retry     string `json:"retry,omitempty"` // buffer: a retry expression that is false for the response the handler gives
 }
 
 type c20Built struct {
@@ -214,6 +238,9 @@ func c20Build(specs []c20MW, inner http.Handler) (http.Handler, error) {
 			if sp.Intervene {
 				opts = append(opts, buffer.MaxRequestBodyBytes(10))
 			}
+			if sp.Retry != "" {
+				opts = append(opts, buffer.Retry(sp.Retry))
+			}
 			h, err = buffer.New(h, opts...)
 		default:
 			err = fmt.Errorf("unknown middleware %q", sp.Kind)
@@ -268,6 +295,7 @@ func c20Stacks(c *Ctx) {
 			case 0:
 				script.Kind = "flush"
 				script.Status = pick(r, []int{0, 200, 201})
+				script.HeadFlush = r.IntN(2) == 0
 			case 1:
 				script.Kind = "hijack"
 			}
@@ -291,6 +319,23 @@ func c20Stacks(c *Ctx) {
 		if script.Kind == "plain" && script.Status != 0 && r.IntN(6) == 0 && !recorderMode {
 			script.Early = true // (a ResponseRecorder keeps the first status it is given, so no 1xx in recorder mode)
 		}
+		if mode == "transparent" && (script.Kind == "plain" || script.Kind == "flush") {
+			// buffers configured with a retry expression that has no reason to fire for this handler's answer
+			st := script.Status
+			if st == 0 {
+				st = 200
+			}
+			for k := range specs {
+				if specs[k].Kind == "buffer" && r.IntN(2) == 0 {
+					exprs := []string{sfmt("ResponseCode() != %d && Attempts() <= 2", st), "ResponseCode() == 599", sfmt("ResponseCode() < %d", st), sfmt("ResponseCode() > %d && Attempts() < 4", st)}
+					if st != 502 && st != 504 {
+						exprs = append(exprs, "IsNetworkError() && Attempts() < 3")
+					}
+					specs[k].Retry = pick(r, exprs)
+					c.Count("buffers_with_idle_retry_expression", 1)
+				}
+			}
+		}
 		explicitCT := r.IntN(3) != 0
 		if explicitCT {
 			script.Headers = append(script.Headers, [2]string{"Content-Type", "application/x-verif"})
@@ -313,7 +358,7 @@ func c20Stacks(c *Ctx) {
 		}
 		freeze(baseTime.Add(time.Duration(r.Int64N(1e9))))
 		defer unfreeze()
-		inner := &c20Inner{invoked: map[string]int{}, script: script, gotFirst: make(chan struct{}, 1), hold: make(chan struct{}), entered: make(chan struct{}, 1)}
+		inner := &c20Inner{invoked: map[string]int{}, script: script, gotFirst: make(chan struct{}, 1), gotHead: make(chan struct{}, 1), hold: make(chan struct{}), entered: make(chan struct{}, 1)}
 		h, err := c20Build(specs, inner)
 		desc := map[string]any{"stack": specs, "mode": mode, "script": script}
 		if err != nil {
@@ -321,6 +366,7 @@ func c20Stacks(c *Ctx) {
 			return
 		}
 		srv.set(h)
+		var onHead func()
 		do := func(id, scriptName string, body []byte, onFirst func()) (*http.Response, []byte, error) {
 			var rd io.Reader
 			method := "GET"
@@ -339,6 +385,9 @@ func c20Stacks(c *Ctx) {
 				return nil, nil, err
 			}
 			defer resp.Body.Close()
+			if onHead != nil && id == "test" {
+				onHead() // the response head has arrived
+			}
 			var out []byte
 			if onFirst != nil {
 				buf := make([]byte, 1)
@@ -423,7 +472,7 @@ func c20Stacks(c *Ctx) {
 				return rec
 			}
 			got := mk(h)
-			bare := &c20Inner{invoked: map[string]int{}, script: script, gotFirst: make(chan struct{}, 1), hold: make(chan struct{}), entered: make(chan struct{}, 1)}
+			bare := &c20Inner{invoked: map[string]int{}, script: script, gotFirst: make(chan struct{}, 1), gotHead: make(chan struct{}, 1), hold: make(chan struct{}), entered: make(chan struct{}, 1)}
 			want := mk(bare)
 			inner.mu.Lock()
 			n := inner.invoked["test"]
@@ -467,14 +516,16 @@ func c20Stacks(c *Ctx) {
 			return
 		}
 		// transparent: compare with the bare handler
-		bareInner := &c20Inner{invoked: map[string]int{}, script: script, gotFirst: make(chan struct{}, 1), hold: make(chan struct{}), entered: make(chan struct{}, 1)}
+		bareInner := &c20Inner{invoked: map[string]int{}, script: script, gotFirst: make(chan struct{}, 1), gotHead: make(chan struct{}, 1), hold: make(chan struct{}), entered: make(chan struct{}, 1)}
 		bare.set(bareInner)
 		var onFirst func()
 		if script.Kind == "flush" {
 			if hasBuffer {
 				inner.gotFirst <- struct{}{} // waived: the buffer holds everything back by design, do not make the handler wait
+				inner.gotHead <- struct{}{}
 			} else {
 				onFirst = func() { inner.gotFirst <- struct{}{} }
+				onHead = func() { inner.gotHead <- struct{}{} }
 			}
 		}
 		resp, body, err := do("test", "", nil, onFirst)
@@ -489,6 +540,7 @@ func c20Stacks(c *Ctx) {
 		{
 			if script.Kind == "flush" {
 				bareInner.gotFirst <- struct{}{}
+				bareInner.gotHead <- struct{}{}
 			}
 			bresp, err = client.Do(breq)
 			if err != nil {
@@ -549,6 +601,13 @@ func c20Stacks(c *Ctx) {
 				return
 			}
 			if script.Kind == "flush" {
+				if !hasBuffer && inner.headBad.Load() > 0 {
+					c.Violation("flush/head-ineffective", "the handler flushed the response head before writing any body byte and waited: the head (status line and headers) did not reach the client (or http.Flusher was unavailable), and the stack contains no buffer", desc)
+					return
+				}
+				if script.HeadFlush {
+					c.Count("head_flush_checked", 1)
+				}
 				if !hasBuffer && inner.flushBad.Load() > 0 {
 					c.Violation("flush/ineffective", "the first chunk did not reach the client while the handler was waiting after Flush (or http.Flusher was unavailable), and the stack contains no buffer", desc)
 					return
